@@ -151,6 +151,22 @@ def hbin(name):
     return os.path.join(TARGET, "debug", name)
 
 
+# second build of the concurrency harness: specs WITHOUT its default `parallel` feature (harness/np)
+TARGET_NP = TARGET + "-np"
+
+
+def build_harness_np():
+    with Lock("cargo"):
+        e = env_offline()
+        e["CARGO_TARGET_DIR"] = TARGET_NP
+        rc, out = sh(["cargo", "build", "--offline"], cwd=os.path.join(HARNESS, "np"), env=e, timeout=3000)
+    return rc == 0, out[-6000:]
+
+
+def hbin_np(name):
+    return os.path.join(TARGET_NP, "debug", name)
+
+
 def pipe_to_driver(harness_cmd, timeout=3000, keep=None, env=None):
     """Runs `harness_cmd | specs_model`; returns (driver lines, harness rc, stderr tail).
     `keep`: optional path to which the harness transcript is also written."""
